@@ -84,7 +84,7 @@ PROPS["C09"] = dict(
     rule="random object trees (depth <= 2; 11 kinds: Point, SimplePoint, Rect, LineString, Polygon, Feature, 5 collection kinds, with 0-4 or 60-70 children, empty children) whose leaves are constructed in contact with a common valid polygon; all ordered pairs; 4 geometry-index x 4 child-index configurations; per pair: 6 predicate answers + 8 algebraic-law flags (within=contains swapped, intersects symmetric, contains=>intersects, contains=>rect covers, intersects=>rects meet, self containment, Feature transparency, SimplePoint/Rect representation transparency) compared with the Coq model; answers compared with the composed point-set oracle when no polygon leaf is in boundary contact (where the C03 findings live). non-trivial: all; distinct = distinct case lines",
     trusted_base=OBJ_TB + ["executable oracle PairSpec.meets_x / covers_x at the leaves (completeness not proved)"],
     assumptions=["float64 exact on D", "Circle is outside this model (real-valued model, C13)"],
-    partial=["contains => rect covers is proved for every receiver except LineString-receiver containment of lines/rects/polygons (covers walk); rect-as-polygon transparency leans on the unproved completeness of C02/C03 for polygon pairs: both explored by correspondence"],
+    partial=["contains => rectangles meet is proved; contains => A's rectangle COVERS B's is checked as a law flag only; rect-as-polygon transparency, intersects symmetry and self containment lean on the unproved completeness of C02/C03 for polygon pairs: law flags"],
 )
 PROPS["C10"] = dict(
     streams=["C10"], kernel_cases=150, timeout=1500, classify=classes.classify_c09,
@@ -117,7 +117,7 @@ PROPS["C08"] = dict(streams=["C08"], kernel_cases=100, timeout=600, rule=JSON_RU
     trusted_base=JSON_TB, assumptions=[], partial=[])
 PROPS["C17"] = dict(streams=["C17", "C17p"], kernel_cases=150, timeout=600,
     rule="random object trees built through NewPoint/NewPointZ/NewSimplePoint/NewRect/NewLineString/NewPolygon (incl. nil)/NewCircle/NewMulti*/NewGeometryCollection/NewFeatureCollection/NewFeature with finite grid values, NaN and +-Inf ordinates, 0-5 positions per series, and member strings (JSON objects with nested values rendered with random whitespace, the empty object with inner whitespace, non-object and invalid texts); per object: JSON()==String()==MarshalJSON()==AppendJSON(nil); AppendJSON onto a prefix with six spare capacities leaves the prefix untouched and appends exactly those bytes; the bytes are one valid JSON object for two independent tokenizers, with the kind's GeoJSON type name and coordinate nesting depth, no bare NaN/Inf; bytes compared with the Coq model of the writers; plus the grammar/mutant document stream of C06 for objects built through Parse (output valid JSON, spellings agree, AppendJSON appends). non-trivial: all; distinct = distinct case lines",
-    trusted_base=JSON_TB, assumptions=["negative zero is not generated (the grid has no -0; strconv prints it as -0)", "member texts containing a top-level \"feature\" key (sjson.Delete path) are not generated"], partial=["that emit's bytes are the text of a JSON tree is checked per case, not proved for all objects"])
+    trusted_base=JSON_TB, assumptions=["negative zero is not generated (the grid has no -0; strconv prints it as -0)", "member texts containing a top-level \"feature\" key (sjson.Delete path) are not generated"], partial=["that Parse / the constructors only build objects meeting the theorem's well-formedness hypotheses is exercised, not proved"])
 
 GEO_TB = ["Coq 8.16.1 kernel; the stdlib real-number axioms (ClassicalDedekindReals.sig_forall_dec, sig_not_dec, FunctionalExtensionality.functional_extensionality_dep, Classical_Prop.classic) as Print Assumptions reports them",
           "Interval 4.x tactic (coq-interval, uses primitive integers / BigZ; kernel-checked enclosures) for the per-input tie",
